@@ -491,6 +491,10 @@ impl AMod {
         }
         Some(acc)
     }
+    /// every `name` section on its own, in file order (walrus reads each separately)
+    pub fn names_sections(&self) -> Vec<ANames> {
+        self.customs.iter().filter(|c| c.name == "name").map(|c| decode_names_prefix(&c.data, c.data_offset)).collect()
+    }
     pub fn producers(&self) -> Option<Result<Vec<(String, Vec<(String, String)>)>>> {
         let c = self.customs.iter().find(|c| c.name == "producers")?;
         Some(decode_producers(&c.data, c.data_offset))
